@@ -130,6 +130,10 @@ impl CaseEngine for C23 {
     fn case_timeout_s(&self, _args: &Args) -> u64 {
         300
     }
+    fn hang_cpu_seconds(&self) -> f64 {
+        // many reader threads burn CPU by design; only the wall-clock watchdog applies
+        f64::INFINITY
+    }
     fn run_case(&self, args: &Args, case: usize, rep: &mut Report, _p: &dyn Fn(&str)) {
         let seed = derive(args.u64("seed", 1), &[tag("C23"), case as u64]);
         let scratch = args.str("scratch", "/verif/scratch/c23");
